@@ -213,3 +213,27 @@ Definition check_domain_geometry (f : ftype) (has_map : bool) (obs_mapped : bool
 (* Abel1D forward = A . (function values): A checked against the quadrature, then applied *)
 Definition check_abel_forward (tol : Q) (n : nat) (endpoint : Qc) (obsA : list (list Qc)) (f obs : list Qc) : bool :=
   check_abel_r tol n endpoint obsA && qcl_rclose tol obs (qmatvec obsA f).
+
+(* Deconvolution2D adjoint as coded (forward with the PSF flipped in both axes), float PSFs *)
+Definition qproj_backward_2d := proj_backward_2d 0%Qc Qcplus Qcmult.
+Definition check_backward2_q (tol : Q) (m : bc) (P X : list (list Qc)) (obs : list (list Qc)) : bool :=
+  qcll_close tol obs (qproj_backward_2d m P X).
+Definition check_backward2_qr (tol : Q) (m : bc) (P X : list (list Qc)) (obs : list (list Qc)) : bool :=
+  qcll_rclose tol obs (qproj_backward_2d m P X).
+
+(* piecewise-constant phantoms evaluated on the FLOAT values of the mesh and of the break-point literals (exact rationals of
+   the binary64 numbers): the comparisons of the code are then reproduced exactly, also when a mesh point hits a break point *)
+Definition phantom_pw_f (breaks vals mesh : list Q) : list Qc := map (fun x => Q2Qc (pw_value x breaks vals)) mesh.
+(* mesh linspace(-1,1,dim) and the point of smallest modulus, where the vonMises phantom attains its maximum *)
+Definition mesh11 (dim i : nat) : Q :=
+  if (dim <=? 1)%nat then (-1)%Q else (-1 + inject_Z (2 * Z.of_nat i) / inject_Z (Z.of_nat (dim - 1)))%Q.
+Definition argmin_abs (l : list Q) (d : Q) : Q :=
+  fold_left (fun best x => if Qle_bool (Qabs best) (Qabs x) then best else x) l d.
+Definition vonmises_tm (dim : nat) : Q := argmin_abs (map (mesh11 dim) (seq 0 dim)) (mesh11 dim 0).
+
+(* observation on a sub-grid of the nodes (observation_grid_map): restriction to the selected node indices *)
+Definition pick (idx : list nat) (l : list Qc) : list Qc := map (fun i => nth i l 0%Qc) idx.
+Definition check_heat_sel (tol : Q) (N : nat) (ep T : Qc) (steps : nat) (u0 : list Qc) (idx : list nat) (obs : list Qc) : bool :=
+  heat_steps_ok N ep T steps &&
+  (let m := heat_solution N ep T steps u0 in
+   list_eqb (fun a b => Qle_bool (Qabs (this a - this b)) (tol * qmaxabs m)) obs (pick idx m)).
